@@ -276,6 +276,10 @@ def rule_delta_cap(eng, rep, rule="C18-3.growth-of-delta-is-capped"):
                             cv = const_value(c)
                             if cv is not None and cv > 1 and "delta" in ekey(sub):
                                 grow.append(str(cv))
+                    if isinstance(sub, ast.BinOp) and isinstance(sub.op, ast.Div):
+                        dv = const_value(sub.right)
+                        if dv is None or abs(dv) < 1:
+                            grow.append("/" + short(sub.right, 20))        # division by a quantity that is not known to be >= 1 (e.g. tau in (0, 1], possibly 0)
                 if not grow:
                     rep.ok(rule, site, "no factor that can exceed 1 multiplies delta in `%s`" % short(v, 50), nontrivial=False)
                     continue
@@ -285,7 +289,6 @@ def rule_delta_cap(eng, rep, rule="C18-3.growth-of-delta-is-capped"):
                 else:
                     rep.bad(rule, site, "%s|uncapped-growth|%s" % (fi.fid, "+".join(sorted(set(grow)))), "delta can grow by %s without the 1e10 cap: `%s`" % (sorted(set(grow)), short(v)))
     rep.require_count(rule, "assignments to delta", n, 8)
-    rep.not_decided.append("C18-3 with a regulariser: `/ tau` can enlarge delta and no static bound on tau is available")
 
 
 def _param_range(eng, typed, cfg, at_ast, e):
